@@ -43,7 +43,7 @@ REG = dict(
 
 def run(tier, seed):
     return generic.run_spec("C10", tier, seed, STEPS, RULE,
-                            required=["callbacks_observed", "crowd_triggers", "signal_activations_multi", "finalizers_observed", "releases_direct", "releases_inside_own_callback",
+                            required=["callbacks_observed", "crowd_triggers", "signal_activations_multi", "once_refused", "listener_disable_then_free_in_callback", "finalizers_observed", "releases_direct", "releases_inside_own_callback",
                                       "releases_inside_other_callback", "objects_event", "objects_once", "objects_bev_socket",
                                       "objects_bev_pair", "objects_bev_filter", "objects_evbuffer", "objects_listener",
                                       "once_ran", "once_never_ran_base_freed_first", "library_fds_closed_once",
